@@ -213,15 +213,17 @@ def run(chk):
                               dict(case=c[:300], label=lab, impl=r, profile=prof))
     chk.stream("flat operator chains of 1000..20000 operands compiled, their context cloned twice, executed and dropped",
                2 * len(ccases), len(ccases), exhaustive=False)
-    # values nested by accumulation: reduce can build a value as deep as its receiver is long, and values are cloned and
-    # dropped recursively.  Up to a few thousand levels this works; beyond that the recorded finding applies.
+    # values nested by accumulation: reduce could build a value as deep as its receiver is long, and values are cloned and
+    # dropped recursively (repaired by c89dc49: at most 1000 levels); every size must end without an abort
     acases, alabels, akeyed = [], [], []
-    for n in [10, 100, 1000, 3000, 10000, 30000] + ([] if quick else [100000]):
+    for n in [10, 100, 999, 1000, 1001, 3000, 10000] + ([] if quick else [30000, 100000]):
         for src in ["size(l.reduce(a, x, [a], []))", "size(l.reduce(a, x, [x, a], []))", "size(l.reduce(a, x, {'k': a}, {}).k)",
                     "size(l.reduce(a, x, a + [x], []))", "l.reduce(a, x, [a], [1]) == l.reduce(a, x, [a], [2])"]:
+            if "a + [x]" in src and n > 3000:
+                continue            # flat accumulation is quadratic in time; nothing to learn from it beyond a few thousand
             acases.append(evalsrc_case(src, binds=[("l", vlist([vi(i % 7) for i in range(n)]))], ufuncs=[], std=False))
             alabels.append("%s with %d elements" % (src, n))
-            akeyed.append(n > 3000 and "a + [x]" not in src)
+            akeyed.append(False)
     for prof in ("debug", "release"):
         aimpl = run_impl(acases, prof, isolate=True, timeout=900)
         for lab, c, r, keyed in zip(alabels, acases, aimpl, akeyed):
